@@ -164,22 +164,26 @@ static sqfs_object_t *data_reader_copy(const sqfs_object_t *obj)
 	if (copy->frag_tbl == NULL)
 		goto fail_ftbl;
 
+	/*
+	  The cached blocks are always a full, zero padded block in size,
+	  whatever the size of their payload is. Reads rely on that.
+	 */
 	if (data->data_block != NULL) {
-		copy->data_block = malloc(data->data_blk_size);
+		copy->data_block = malloc(data->block_size);
 		if (copy->data_block == NULL)
 			goto fail_dblk;
 
 		memcpy(copy->data_block, data->data_block,
-		       data->data_blk_size);
+		       data->block_size);
 	}
 
 	if (copy->frag_block != NULL) {
-		copy->frag_block = malloc(copy->frag_blk_size);
+		copy->frag_block = malloc(data->block_size);
 		if (copy->frag_block == NULL)
 			goto fail_fblk;
 
 		memcpy(copy->frag_block, data->frag_block,
-		       data->frag_blk_size);
+		       data->block_size);
 	}
 
 	/* duplicate references */
